@@ -467,6 +467,15 @@ theorem FunR.countAll {f f' : Fun} (h : FunR ρ f f') : f'.countAll = f.countAll
   | nestSome b _ ih => exact ih
   | owner fid _ h2 => rfl
 
+theorem SlotR.repIsSome {a b : SlotB} (h : SlotR ρ a b) : b.rep.isSome = a.rep.isSome := by
+  obtain ⟨ba, ra⟩ := a
+  obtain ⟨bb, rb⟩ := b
+  obtain ⟨_, hr⟩ := h
+  simp only at hr
+  cases hr with
+  | none => rfl
+  | some hr => rfl
+
 theorem SlotR.empty {a b : SlotB} (h : SlotR ρ a b) : b.empty = a.empty := by
   obtain ⟨ba, ra⟩ := a
   obtain ⟨bb, rb⟩ := b
